@@ -59,13 +59,15 @@ func (r *BufferReader) Seek(offset int64, whence int) (int64, error) {
 }
 
 func (r *BufferReader) Skip(n int) error {
-	newPos := r.pos + n
-	if newPos < 0 {
-		return errors.New("encoding.BufferReader.Skip: negative position")
+	// n may be a 64-bit TLV-LENGTH converted to int: a negative value would move the reader backwards
+	// (the parse loops then re-read the same element forever), a huge one would overflow pos+n
+	if n < 0 {
+		return errors.New("encoding.BufferReader.Skip: backward skipping is not allowed")
 	}
-	if newPos > len(r.buf) {
+	if n > len(r.buf)-r.pos {
 		return errors.New("encoding.BufferReader.Skip: position out of range")
 	}
+	newPos := r.pos + n
 	r.pos = newPos
 	return nil
 }
